@@ -66,5 +66,13 @@ def run(tier: str) -> int:
 
 
 def replay(path: str) -> int:
-    print(open(path).read()[:3000])
-    return 0
+    """Run the recorded Monte Carlo configuration again (same code, inputs, outputs, iterations, pool size) and judge it."""
+    from fractions import Fraction
+    data = json.loads(open(path).read())['replay']
+    res = Result('C14', 'quick')
+    inputs = [(i['name'], i['dist'], float(Fraction(i['a'])), float(Fraction(i['b'])),
+               float(Fraction(i['c'])) if i['dist'] == 'triangular' else None) for i in data['inputs']]
+    traces, raw = execute([(data['kind'], data['base'], inputs, data['outputs'], data['iterations'], data['workers'])], replay=True)
+    judge(res, traces, raw, CLAUSES, 'C14')
+    res.case('again')
+    return res.finish()
